@@ -11,7 +11,7 @@ from harness import core, fr
 from harness.core import gq, gstr, glist, gbool
 
 HEADER = """From FrameModel Require Import Num.QcTac Geometry.Rect Cases.Cmp Cases.CmpC01
-  Die.Boundaries Die.Cells Die.Cover Die.DieModel Die.DieInput.
+  Die.Boundaries Die.Cells Die.Cover Die.DieModel Die.DieInput Die.NetHistory.
 Open Scope Qc_scope."""
 
 ASSUMPTIONS = [
@@ -37,6 +37,15 @@ ASSUMPTIONS = [
     "construction on the same objects is judged against the model on the objects as the user made them (DieInput.session), and when "
     "the harness sees an argument modified it constructs twice more (with / without the netlist); an open stream is rewound "
     "(seek(0)) by the harness between uses, a stream found closed is opened again",
+    "netlist history: 'the fixed rectangles of the attached netlist' are the rectangles of the netlist's modules whose is_fixed is set, "
+    "by value, at the moment Die(...) runs (read from netlist.modules right before every construction; never through "
+    "Netlist.rectangles / fixed_rectangles(), which are operations of the history); mutators used: Netlist.assign_rectangles, "
+    "Module.is_fixed / is_hard, Rectangle.center / shape (new objects or in place), Module.center + recenter_rectangles, "
+    "Netlist.create_squares; not used: Rectangle.fixed set directly, Module.add_rectangle / clear_rectangles / create_square called "
+    "behind the netlist's back, is_fixed set on a module without rectangles (module flag and rectangle flags would disagree: the "
+    "property does not say which counts); flags and STOG location of the reported fixed rectangles are not compared in histories; "
+    "recentring is generated only where the area-weighted centroid is a binary fraction (exact in binary64) in the exact stream; "
+    "sqrt in create_square is external: the square is handed to the model (side generated, area = side^2 exact)",
 ]
 
 TAGS = ["#"] * 10 + ["BRAM", "DSP", "reg1", "_x", "a_9", "Z", "BRAM", "DSP",
@@ -279,7 +288,236 @@ def gen_case(rng, stream=None):
             case["warm"] = "bare-first"
     elif x < 0.32:
         case["warm"] = "bare-first"
+    if stream in ("exact", "decimal") and rng.random() < 0.2:
+        add_net_history(rng, case, xs, ys, nx, ny, rects)
     return case
+
+
+# --------------------------------------------------------------------------
+# the HISTORY of the attached Netlist object (model: coq/Die/NetHistory.v)
+# --------------------------------------------------------------------------
+def geom_of(box):
+    return [(box[0] + box[2]) / 2, (box[1] + box[3]) / 2, box[2] - box[0], box[3] - box[1]]
+
+
+def dyadic_small(x):
+    d = x.denominator
+    return d & (d - 1) == 0 and d <= 4096
+
+
+def net_initial(case):
+    """the modules of the generated netlist, in the order build_netlist lists them: [name, fixed, hard, square, rects]
+    (values as generated; the square of a module is what create_square() makes of its centre and area)"""
+    groups, rest = [], list(case["fixed"])
+    for g in case.get("fixedgroups") or []:
+        groups.append(rest[:g])
+        rest = rest[g:]
+    groups += [[r] for r in rest]
+    mods = [[f"M{i}", True, True, None, [list(r) for r in g]] for i, g in enumerate(groups) if g]
+    for i, r in enumerate(case.get("hard") or []):
+        mods.append([f"H{i}", False, r[4] == "hard", None, [list(r[:4])]])
+    for i, q in enumerate(case.get("squares") or []):
+        mods.append([f"Q{i}", False, False, [q[0], q[1], q[2], q[2]], []])
+    return mods
+
+
+def net_apply(mods, op, conv=lambda v: v):
+    """the operation on the VALUES (the Python twin of NetHistory.apply_op; exact rationals)"""
+    k = op["op"]
+    byname = {m[0]: m for m in mods}
+    if k == "assign":
+        byname[op["mod"]][4] = [[conv(v) for v in r] for r in op["rects"]]
+    elif k == "fixed":
+        byname[op["mod"]][1] = op["val"]
+    elif k == "hard":
+        byname[op["mod"]][2] = op["val"]
+    elif k == "move":
+        m = byname[op["mod"]]
+        old = [conv(v) for v in op["old"]]
+        i = m[4].index(old)
+        m[4][i] = [conv(v) for v in op["new"]]
+    elif k == "recenter":
+        m = byname[op["mod"]]
+        a = sum(r[2] * r[3] for r in m[4])
+        mx = sum(r[0] * r[2] * r[3] for r in m[4]) / a
+        my = sum(r[1] * r[2] * r[3] for r in m[4]) / a
+        dx, dy = conv(op["center"][0]) - mx, conv(op["center"][1]) - my
+        m[4] = [[r[0] + dx, r[1] + dy, r[2], r[3]] for r in m[4]]
+    elif k == "squares":
+        for m in mods:
+            if not m[4]:
+                m[4] = [[conv(v) for v in m[3]]]
+
+
+def net_fixed_now(mods):
+    return [list(r) for m in mods if m[1] for r in m[4]]
+
+
+def net_replay(case, conv=lambda v: v):
+    """the fixed rectangles every construction of the history (and the last one) is to be handed: replay on values"""
+    mods = [[m[0], m[1], m[2], m[3], [[conv(v) for v in r] for r in m[4]]] for m in net_initial(case)]
+    seen = []
+    for op in case["nethist"]:
+        if op["op"] == "die":
+            seen.append(net_fixed_now(mods) if op["net"] else [])
+        else:
+            net_apply(mods, op, conv)
+    seen.append(net_fixed_now(mods))
+    return seen
+
+
+def add_net_history(rng, case, xs, ys, nx, ny, rects):
+    """the Netlist object is MODIFIED through its public mutators after it was read and before (and between) the
+    constructions that attach it: assign_rectangles, is_fixed / is_hard, rectangle setters, recenter_rectangles,
+    create_squares, reads, earlier dies.  Relocations go to free lattice boxes, so most states are valid layouts; a hard
+    module made fixed where it stands and a translation that finds no room give layouts that must be refused."""
+    exact = case["stream"] == "exact"
+    occ = {(i, j) for (i0, j0, i1, j1) in rects for i in range(i0, i1) for j in range(j0, j1)}
+    for h in case.get("hard") or []:                           # where a hard / soft module stands is not free either
+        hb = box4(h)
+        occ |= {(i, j) for i in range(nx) for j in range(ny)
+                if xs[i] < hb[2] and xs[i + 1] > hb[0] and ys[j] < hb[3] and ys[j + 1] > hb[1]}
+    spare = []
+    for _ in range(30):
+        if len(spare) >= 5:
+            break
+        i0, j0 = rng.randrange(nx), rng.randrange(ny)
+        i1, j1 = min(nx, i0 + rng.choice([1, 1, 2])), min(ny, j0 + rng.choice([1, 1, 2]))
+        cells = {(i, j) for i in range(i0, i1) for j in range(j0, j1)}
+        if cells & occ:
+            continue
+        occ |= cells
+        spare.append([xs[i0], ys[j0], xs[i1], ys[j1]])
+    if spare and rng.random() < 0.3:
+        b = spare.pop()
+        side = min(b[2] - b[0], b[3] - b[1])
+        case["squares"] = [[b[0] + side / 2, b[1] + side / 2, side]]
+    if not case["fixed"] and not case.get("hard") and not case.get("squares"):
+        if not spare:
+            return
+        case["fixed"] = [geom_of(spare.pop())]                 # a netlist with one fixed module to begin with
+    case.pop("reuse", None)
+    case.pop("warm", None)
+    mods = net_initial(case)
+    original = {m[0]: [list(r) for r in m[4]] for m in mods}
+    W, H = case["W"], case["H"]
+    ops = []
+
+    def emit(op):
+        ops.append(op)
+        if op["op"] != "die":
+            net_apply(mods, op)
+
+    def with_rects():
+        return [m for m in mods if m[4]]
+
+    def disjoint(rs):
+        """the rectangles of ONE module must not overlap (Netlist._create_rectangles refuses such a hard module: the
+        netlist itself would be inconsistent, which is not the die's subject)"""
+        bs = [box4(r) for r in rs]
+        return all(ovl(bs[i], bs[j]) == (F(0), F(0)) for i in range(len(bs)) for j in range(i + 1, len(bs)))
+
+    def gen_one():
+        kind = rng.choices(["assign", "fixed", "hard", "move", "recenter", "squares", "read", "die"], [30, 22, 6, 14, 12, 8, 4, 4])[0]
+        if kind == "assign":
+            cands = [m for m in with_rects() if m[1]] * 3 + with_rects()
+            if not cands:
+                return
+            m = rng.choice(cands)
+            how = rng.choice(["relocate", "relocate", "extend", "restore", "same", "two"])
+            if how == "restore" and m[4] != original[m[0]] and original[m[0]]:
+                new = original[m[0]]
+            elif how == "same":
+                new = m[4]
+            elif how == "extend" and spare:
+                new = m[4] + [geom_of(spare.pop())]
+            elif how == "two" and len(spare) >= 2:
+                new = [geom_of(spare.pop()), geom_of(spare.pop())]
+            elif spare:
+                new = [geom_of(spare.pop())]
+            else:
+                return
+            if not disjoint(new):
+                return
+            emit({"op": "assign", "mod": m[0], "rects": [list(r) for r in new]})
+        elif kind == "fixed":
+            cands = with_rects()
+            if cands:
+                m = rng.choice(cands)
+                emit({"op": "fixed", "mod": m[0], "val": not m[1] if rng.random() < 0.9 else m[1]})
+        elif kind == "hard":
+            cands = [m for m in with_rects() if m[0][0] in "MH"]
+            if cands:
+                m = rng.choice(cands)
+                emit({"op": "hard", "mod": m[0], "val": not m[2]})
+        elif kind == "move":
+            cands = with_rects()
+            if cands and spare:
+                m = rng.choice(cands)
+                old, new = rng.choice(m[4]), geom_of(spare.pop())
+                if disjoint([r for r in m[4] if r is not old] + [new]):
+                    emit({"op": "move", "mod": m[0], "old": list(old), "new": new, "how": rng.choice(["objects", "inplace"])})
+        elif kind == "recenter":
+            cands = [m for m in with_rects() if m[0][0] in "MH"]
+            if not cands:
+                return
+            m = rng.choice(cands)
+            a = sum(r[2] * r[3] for r in m[4])
+            cx, cy = sum(r[0] * r[2] * r[3] for r in m[4]) / a, sum(r[1] * r[2] * r[3] for r in m[4]) / a
+            if exact and not (dyadic_small(cx) and dyadic_small(cy)):
+                return
+            bx = [min(r[0] - r[2] / 2 for r in m[4]), min(r[1] - r[3] / 2 for r in m[4]),
+                  max(r[0] + r[2] / 2 for r in m[4]), max(r[1] + r[3] / 2 for r in m[4])]
+            room = [b for b in spare if b[2] - b[0] >= bx[2] - bx[0] and b[3] - b[1] >= bx[3] - bx[1]]
+            if room:
+                b = rng.choice(room)
+                spare.remove(b)
+                dx, dy = b[0] - bx[0], b[1] - bx[1]
+            elif rng.random() < 0.4:
+                q = F(1, 8) if exact else F(1, 10)
+                dx = rng.randrange(0, max(1, int((W - (bx[2] - bx[0])) / q) + 1)) * q - bx[0]
+                dy = rng.randrange(0, max(1, int((H - (bx[3] - bx[1])) / q) + 1)) * q - bx[1]
+            else:
+                return
+            was_fixed, was_hard = m[1], m[2]
+            if was_fixed:
+                emit({"op": "fixed", "mod": m[0], "val": False})
+            if not was_hard:
+                emit({"op": "hard", "mod": m[0], "val": True})
+            if rng.random() < 0.2:
+                emit({"op": "die", "net": True})                 # the die in between sees the module released, where it stood
+            emit({"op": "recenter", "mod": m[0], "center": [cx + dx, cy + dy]})
+            if was_fixed or rng.random() < 0.6:
+                emit({"op": "fixed", "mod": m[0], "val": True})
+        elif kind == "squares":
+            qs = [m for m in mods if m[0][0] == "Q" and not m[4]]
+            if qs:
+                emit({"op": "squares"})
+                if rng.random() < 0.3:
+                    emit({"op": rng.choice(["die", "read"]), "net": True, "how": "num"})
+                emit({"op": "fixed", "mod": qs[0][0], "val": True})
+        elif kind == "read":
+            emit({"op": "read", "how": rng.choice(["rectangles", "num", "fixed"])})
+        else:
+            emit({"op": "die", "net": rng.random() < 0.8})
+
+    if rng.random() < 0.3:
+        emit({"op": "die", "net": rng.random() < 0.85})          # a die before anything was modified
+    for _ in range(rng.choice([1, 1, 1, 2, 2, 3, 4])):
+        n0 = len(ops)
+        gen_one()
+        if len(ops) > n0:
+            x = rng.random()
+            if x < 0.12:
+                emit({"op": "read", "how": rng.choice(["rectangles", "num", "fixed"])})   # a read refreshes what a cache keeps
+            elif x < 0.4:
+                emit({"op": "die", "net": rng.random() < 0.85})
+    if not any(op["op"] not in ("die", "read") for op in ops):
+        b = [m for m in with_rects() if m[1]]
+        if b:
+            emit({"op": "fixed", "mod": b[0][0], "val": False})
+    case["nethist"] = ops
+    case["stats"] = case["stats"] + ["netlist-history"]
 
 
 def inject_defect(rng, case, tree, xs, ys):
@@ -622,7 +860,7 @@ def classify_assert(e):
 
 def build_netlist(case):
     from frame.netlist.netlist import Netlist
-    if not case["fixed"] and not case.get("hard"):
+    if not case["fixed"] and not case.get("hard") and not case.get("squares"):
         return None
     groups, rest = [], list(case["fixed"])
     for g in case.get("fixedgroups") or []:                  # fixed modules with several rectangles
@@ -633,8 +871,59 @@ def build_netlist(case):
     for i, r in enumerate(case.get("hard") or []):
         mods[f"H{i}"] = ({"hard": True, "rectangles": [py_value(r[:4])]} if r[4] == "hard"
                          else {"area": float(r[2] * r[3]), "rectangles": [py_value(r[:4])]})
-    mods["S"] = {"area": 1}
+    for i, q in enumerate(case.get("squares") or []):
+        # a soft module with centre and area and no rectangle: create_squares() gives it the square of that area
+        mods[f"Q{i}"] = {"area": float(q[2] * q[2]), "center": [float(q[0]), float(q[1])]}
+    if not case.get("squares"):
+        mods["S"] = {"area": 1}                              # (no centre: create_squares() would refuse it)
     return Netlist({"Modules": mods, "Nets": []})
+
+
+def impl_net_op(netlist, op):
+    """one operation of case['nethist'] on the real Netlist object, through its public interface"""
+    from frame.geometry.geometry import Point, Shape
+    k = op["op"]
+    if k == "assign":
+        netlist.assign_rectangles({op["mod"]: [py_value(r) for r in op["rects"]]})
+    elif k == "fixed":
+        netlist.get_module(op["mod"]).is_fixed = op["val"]
+    elif k == "hard":
+        netlist.get_module(op["mod"]).is_hard = op["val"]
+    elif k == "move":
+        m = netlist.get_module(op["mod"])
+        old = [float(v) for v in op["old"]]
+        # the rectangle that has the value `old` (decimal coordinates: the nearest one - a recentred rectangle holds rounded values)
+        dist = lambda r: max(abs(a - b) for a, b in zip([r.center.x, r.center.y, r.shape.w, r.shape.h], old))
+        r = min(m.rectangles, key=dist)
+        if dist(r) > 1e-9 * max(1.0, max(abs(v) for v in old)):
+            raise ValueError("no rectangle with that value")
+        x, y, w, h = (float(v) for v in op["new"])
+        if op.get("how") == "inplace":
+            r.center.x, r.center.y = x, y
+            r.shape.w, r.shape.h = w, h
+        else:
+            r.center = Point(x, y)
+            r.shape = Shape(w, h)
+    elif k == "recenter":
+        m = netlist.get_module(op["mod"])
+        m.center = Point(float(op["center"][0]), float(op["center"][1]))
+        m.recenter_rectangles()
+    elif k == "squares":
+        netlist.create_squares()
+    elif k == "read":
+        how = op.get("how")
+        if how == "rectangles":
+            len(netlist.rectangles)
+        elif how == "fixed":
+            netlist.fixed_rectangles()
+        else:
+            _ = netlist.num_rectangles
+
+
+def modules_fixed_now(netlist):
+    """the fixed rectangles of the netlist taken from its MODULES, by value (never through Netlist.rectangles /
+    fixed_rectangles(): reading those is an operation of the history)"""
+    return [fr.rect_obs(r) for m in netlist.modules if m.is_fixed for r in m.rectangles]
 
 
 def input_text(case):
@@ -722,13 +1011,19 @@ def run_impl(case):
 
         w, h = tree.get("width"), tree.get("height")
         ok = all(isinstance(v, (int, float)) and not isinstance(v, bool) for v in (w, h))
-        fixed_in = [fr.rect_obs(r) for r in netlist.fixed_rectangles()] if netlist is not None else []
+        hist = case.get("nethist")
+        if hist is not None:
+            fixed_in = []
+        else:
+            fixed_in = [fr.rect_obs(r) for r in netlist.fixed_rectangles()] if netlist is not None else []
 
         def construct(with_netlist):
             """one construction on the shared objects, observed"""
             net = netlist if with_netlist else None
             stream = make_stream()
             obs = {}
+            if hist is not None:
+                obs["mods_now"] = modules_fixed_now(netlist) if net is not None else []
             try:
                 die = Die(stream, net) if net is not None else Die(stream)
                 obs["v"] = "accept"
@@ -773,6 +1068,20 @@ def run_impl(case):
         except Exception:
             pass
         steps = []
+        if hist is not None:
+            # the Netlist object is modified through its public mutators before / between the constructions
+            for k, op in enumerate(hist):
+                if op["op"] == "die":
+                    steps.append(dict(construct(op["net"]), step="n" if op["net"] else "b"))
+                    continue
+                try:
+                    impl_net_op(netlist, op)
+                except (AssertionError, ZeroDivisionError, StopIteration, ValueError) as e:
+                    # the history itself was refused (only in shrunk / hand-written cases): nothing after it is judged
+                    return {"v": "history-refused", "at": k, "msg": f"{type(e).__name__}: {e}"[:200], "steps": steps}
+            obs = construct(True)
+            obs["steps"] = steps
+            return obs
         for st in case.get("reuse") or []:
             with_net = (st == "n")
             steps.append(dict(construct(with_net), step=st))
@@ -864,6 +1173,8 @@ def to_coq(case, obs):
     if case["stream"] == "decimal":
         return "true"                     # oracle only: the theorems speak about exact arithmetic
     inp, files, loads = model_input(case)
+    if case.get("nethist") is not None:
+        return nethist_to_coq(case, obs, inp, files, loads)
     if obs.get("steps") is None:
         fx = glist([fr.grect(d) for d in obs["fixed_in"]])
         return step_to_coq(obs, files, loads, inp, fx)
@@ -876,7 +1187,52 @@ def to_coq(case, obs):
     return f"agree_steps (session (fun i fx => (i, fx)) (mkObjs {inp} {fx}) {flags}) {chks}"
 
 
-def step_to_coq(obs, files, loads, inp, fx):
+def conv_impl(x):
+    """the exact value of a generated number as the implementation receives it"""
+    return core.frac(py_value(x))
+
+
+def ggeom(r):
+    return "(mkGeom " + " ".join(gq(conv_impl(v)) for v in r[:4]) + ")"
+
+
+def gnetop(op):
+    k = op["op"]
+    if k == "assign":
+        return f"(OAssign {gstr(op['mod'])} {glist([ggeom(r) for r in op['rects']])})"
+    if k == "fixed":
+        return f"(OSetFixed {gstr(op['mod'])} {gbool(op['val'])})"
+    if k == "hard":
+        return f"(OSetHard {gstr(op['mod'])} {gbool(op['val'])})"
+    if k == "move":
+        return f"(OMove {gstr(op['mod'])} {ggeom(op['old'])} {ggeom(op['new'])})"
+    if k == "recenter":
+        return f"(ORecenter {gstr(op['mod'])} {gq(conv_impl(op['center'][0]))} {gq(conv_impl(op['center'][1]))})"
+    if k == "squares":
+        return "OSquares"
+    if k == "read":
+        return "ORead"
+    return f"(ODie {gbool(op['net'])})"
+
+
+def gnetstate(case):
+    return glist([f"(mkMod {gstr(m[0])} {gbool(m[1])} {gbool(m[2])} {'(Some ' + ggeom(m[3]) + ')' if m[3] else 'None'} "
+                  f"{glist([ggeom(r) for r in m[4]])})" for m in net_initial(case)])
+
+
+def nethist_to_coq(case, obs, inp, files, loads):
+    """the history on the model's netlist (Die/NetHistory.v): the model says what every construction is handed (the
+    fixed rectangles of the modules at that moment), each observed outcome is compared on that"""
+    st = gnetstate(case)
+    if obs["v"] == "history-refused":
+        return f"ops_refused {st} {glist([gnetop(op) for op in case['nethist'][:obs['at'] + 1]])}"
+    ops = glist([gnetop(op) for op in case["nethist"]] + ["(ODie true)"])
+    allobs = obs["steps"] + [obs]
+    chks = glist(["(fun i fx => " + step_to_coq(o, files, loads, "i", "fx", geometry_only=True) + ")" for o in allobs])
+    return f"agree_nsteps (nsession (fun i fx => (i, fx)) {inp} {st} {ops}) {chks}"
+
+
+def step_to_coq(obs, files, loads, inp, fx, geometry_only=False):
     pars = f"{gq(obs['eps'])} {gq(obs['aeps'])} {gq(obs['deps'])} {gq(obs['tin'])}"
     world = f"{files} {loads}"
     if obs["v"] == "raise":
@@ -889,7 +1245,13 @@ def step_to_coq(obs, files, loads, inp, fx):
         # which assertion fired (obs['cls']) is kept for diagnosis only: the property says "rejected"
         return f"agree_reject_in {world} {pars} {inp} {fx} None"
     L = lambda k: glist([fr.grect(r) for r in obs[k]])
-    return f"agree_accept_in {world} {pars} {inp} {fx} {L('ground')} {L('spec')} {L('block')} {L('fixed')}"
+    FX = L("fixed")
+    if geometry_only:
+        # a history: the model's netlist carries geometry only (NetHistory.fixed_rect); the flags and the STOG location of the
+        # reported fixed rectangles are not compared (the property: reported unchanged, with its tag)
+        FX = glist([fr.grect({"cx": r["cx"], "cy": r["cy"], "w": r["w"], "h": r["h"], "fixed": True, "region": r["region"]})
+                    for r in obs["fixed"]])
+    return f"agree_accept_in {world} {pars} {inp} {fx} {L('ground')} {L('spec')} {L('block')} {FX}"
 
 
 # --------------------------------------------------------------------------
@@ -944,6 +1306,8 @@ def oracle(case, obs):
     made), then the last one; a construction without the netlist is judged as the description alone"""
     if case["stream"] == "sd":
         return None                       # string_die alone: correspondence only
+    if case.get("nethist") is not None:
+        return oracle_nethist(case, obs)
     steps = obs.get("steps") or []
     for k, o in enumerate(steps + [obs]):
         sub = case if o.get("step", "n") == "n" else dict(case, fixed=[], hard=[])
@@ -956,6 +1320,61 @@ def oracle(case, obs):
             note = " [an argument object was modified by a construction]" if obs.get("mutated") else ""
             return f"construction {k + 1} of {seq} on the same objects: {why}{note}"
     return None
+
+
+def oracle_nethist(case, obs):
+    """a history of the attached Netlist object: every construction is judged against the fixed rectangles the netlist's
+    MODULES had when it ran (read by value right before it: obs['mods_now']).  For the geometry (is the layout valid,
+    do the regions tile) the values the history gives on paper (net_replay, exact) are used when the modules hold
+    exactly them (binary coordinates) or them within 1e-9 of the die (decimal coordinates, where the description's numbers
+    are exact decimals too); otherwise the values read from the modules."""
+    if obs["v"] == "history-refused":
+        return None
+    steps = obs.get("steps") or []
+    allobs = steps + [obs]
+    paper = net_replay(case)
+    assert len(paper) == len(allobs)
+    dec = case["stream"] == "decimal"
+    tol = F(1, 10 ** 9) * max(case["W"], case["H"]) if dec else F(0)
+    for k, (o, want) in enumerate(zip(allobs, paper)):
+        with_net = o.get("step", "n") == "n"
+        now = [[core.frac(d[c]) for c in ("cx", "cy", "w", "h")] for d in o.get("mods_now") or []]
+        geo = now
+        a, b = sorted(want), sorted(now)
+        if len(a) == len(b) and all(abs(u - v) <= tol for p, q in zip(a, b) for u, v in zip(p, q)):
+            geo = want
+        sub = dict(case, fixed=geo if with_net else [], hard=[], want_fixed=now if with_net else [])
+        why = oracle_one(sub, o)
+        if why:
+            said = []
+            for op in case["nethist"]:
+                if op["op"] == "die":
+                    said.append("Die(d, netlist)" if op["net"] else "Die(d)")
+                    if len([x for x in said if x.startswith("Die(")]) > k:
+                        break
+                else:
+                    said.append(describe_netop(op))
+            if k == len(allobs) - 1:
+                said.append("Die(d, netlist)")
+            return f"construction {k + 1} of the history {'; '.join(said)}: {why} [the netlist was modified after it was read]"
+    return None
+
+
+def describe_netop(op):
+    k = op["op"]
+    if k == "assign":
+        return f"netlist.assign_rectangles({{{op['mod']}: {[[float(v) for v in r] for r in op['rects']]}}})"
+    if k == "fixed":
+        return f"{op['mod']}.is_fixed = {op['val']}"
+    if k == "hard":
+        return f"{op['mod']}.is_hard = {op['val']}"
+    if k == "move":
+        return f"rectangle {[float(v) for v in op['old']]} of {op['mod']} set to {[float(v) for v in op['new']]}"
+    if k == "recenter":
+        return f"{op['mod']}.center = {[float(v) for v in op['center']]}; {op['mod']}.recenter_rectangles()"
+    if k == "squares":
+        return "netlist.create_squares()"
+    return "netlist." + {"rectangles": "rectangles", "fixed": "fixed_rectangles()"}.get(op.get("how"), "num_rectangles")
 
 
 def oracle_one(case, obs):
@@ -992,7 +1411,7 @@ def oracle_one(case, obs):
     if obs["v"] == "reject":
         if strictly_valid:
             note = ""
-            if obs.get("cls") in ("ROverlap", "RCheck") and 0 < obs["eps"] < obs["deps"] / 2:
+            if dec and obs.get("cls") in ("ROverlap", "RCheck") and 0 < obs["eps"] < obs["deps"] / 2:
                 note = " [netlist-eps: the class-wide epsilon was defined by the netlist, smaller than the die's own]"
             if obs.get("cls") == "stream-type" and case["form"] == "stream":
                 note = " [stream-handle: read_yaml refuses every open stream (isinstance(stream, typing.TextIO))]"
@@ -1000,6 +1419,8 @@ def oracle_one(case, obs):
         return None
     # accepted: every input region reported unchanged with its tag, in its list
     nums, fixed_nums = impl_numbers(case)
+    if case.get("want_fixed") is not None:
+        fixed_nums = case["want_fixed"]          # a history: the values the netlist's modules held at construction time
     rl_impl = nums.get("regions", [])
     if rl_impl and isnum(rl_impl[0]):
         rl_impl = [rl_impl]
@@ -1068,14 +1489,18 @@ def shrink(case):
             else:
                 t.pop("regions")
             yield dict(case, tree=t, form="dict" if case["form"] == "single" else case["form"])
-    for i in range(len(case["fixed"])):
+    for i in range(len(case["fixed"]) if not case.get("nethist") else 0):     # (the operations of a history name the modules)
         yield dict(case, fixed=case["fixed"][:i] + case["fixed"][i + 1:], fixedgroups=None)
     if case.get("warm"):
         yield dict(case, warm=None)
     ru = case.get("reuse") or []
     for i in range(len(ru)):
         yield dict(case, reuse=ru[:i] + ru[i + 1:])
-    if case.get("hard"):
+    nh = case.get("nethist")
+    if nh:
+        for i in range(len(nh)):
+            yield dict(case, nethist=nh[:i] + nh[i + 1:])
+    if case.get("hard") and not nh:
         yield dict(case, hard=[])
     if case["form"] in ("text", "file", "stream") and not case.get("textdefect") and case["render"]["style"] != "block":
         yield dict(case, render=dict(case["render"], style="block"))
@@ -1084,7 +1509,7 @@ def shrink(case):
 def nontrivial(case):
     regs = case["tree"].get("regions") if isinstance(case.get("tree"), dict) else None
     n = (len(regs) if isinstance(regs, list) and regs and isinstance(regs[0], list) else (1 if regs else 0))
-    return n + len(case["fixed"]) >= 2 or case["stream"] in ("malformed", "badstring") or \
+    return n + len(case["fixed"]) >= 2 or case["stream"] in ("malformed", "badstring") or bool(case.get("nethist")) or \
         (case["stream"] == "sd" and "x" in case["raw"])
 
 
@@ -1115,7 +1540,12 @@ def run(ctx, out, replay=None):
                 "characters) / file name / open stream, each with and without netlist; a third of the cases are histories on the SAME "
                 "objects (the description dict / str / file / rewound stream and the Netlist object handed to 2-4 constructions, with "
                 "and without the netlist in any order, every construction judged; two more constructions when an argument was "
-                "modified) or follow a bare die built with the same netlist; non-trivial = at least two regions or a refused input; distinct by canonical hash")
+                "modified) or follow a bare die built with the same netlist; a fifth of the exact / decimal cases are HISTORIES OF THE "
+                "NETLIST OBJECT: after it was read it is modified through its public mutators (assign_rectangles relocating / extending / "
+                "restoring a module, is_fixed released / set, is_hard, rectangle setters, recenter_rectangles, create_squares + is_fixed; "
+                "relocations go to free lattice boxes, a module fixed where it stands may overlap), with reads of netlist.rectangles / "
+                "num_rectangles / fixed_rectangles() and dies with / without the netlist before, between and after, every construction "
+                "judged against the fixed rectangles the netlist's modules hold at that moment; non-trivial = at least two regions or a refused input; distinct by canonical hash")
     cases = []
     if replay and "case" in replay:
         cases.append(fr.unjson(replay["case"]))
